@@ -117,6 +117,11 @@ def run_case(case, ctx):
         return
     if 'changed_by_later_call' in res:
         ctx.count('earlier_results_checked_after_a_later_call')
+    if res.get('repeated_request_differs'):
+        ctx.reject('result_depends_on_what_the_caller_did_to_an_earlier_result', detail=dict(program=prog), method=method, n=n)
+        return
+    if 'repeated_request_differs' in res:
+        ctx.count('request_repeated_after_the_caller_modified_its_result')
     if res.get('x_modified'):
         ctx.reject('callers_array_modified', detail=dict(program=prog), method=method, n=n)
         return
